@@ -31,29 +31,39 @@ from cotengra import core as ccore
 from cotengra.pathfinders import path_basic as pb
 from cotengra.hyperoptimizers import hyper as chyper
 
-from . import gen, common
+from . import gen, common, c05_presets, c05_sessions
 
 PROP = "C05"
 LEVEL = "proof"
 LEVEL_TEXT = (
-    "Partial proof plus verified checking. Proved in Lean 4 for all inputs: the path/tree validity "
-    "checkers are sound and complete w.r.t. the replay semantics (each input consumed exactly once, one "
-    "tensor left); from_path with autocomplete completes every replayable path for every valid "
-    "sub-optimizer; every word of ContractionProcessor operations followed by "
-    "optimize_remaining_by_size emits a valid complete SSA path; build_divide's loop terminates for every "
-    "partitioner and every choice of the next childless node; build_agglom's loop terminates whenever "
-    "each round merges something, provably not otherwise (defect), and always after the proposed repair; "
-    "kahypar's short-circuits return full-length memberships. The remaining quantifier -- registered "
-    "optimizer x sampled hyper-parameters x network -- is explored with the verified checkers on the real "
-    "outputs.")
+    "Proof plus verified checking. Proved in Lean 4 for all inputs: the path/tree validity checkers are "
+    "sound and complete w.r.t. the replay semantics (each input consumed exactly once, one tensor left); "
+    "from_path with autocomplete completes every replayable path of any arity, with the sub-optimizer "
+    "assumption discharged for the code as it stands (contract_nodes on k >= 3 nodes replays the inner "
+    "finder's path: complete whenever that path is a valid pairwise path of the k nodes); every word of "
+    "ContractionProcessor operations followed by optimize_remaining_by_size emits a valid complete SSA "
+    "path, ssa_to_linear turns every valid SSA path into a valid linear path without raising, and "
+    "from_path(ssa_path) needs no autocompletion (greedy / optimal / random-greedy trials end to end); "
+    "RandomOptimizer's path is valid for every PRNG; build_divide's loop terminates for every number of "
+    "inputs, every contract-honouring partitioner and every order of childless nodes; build_agglom's loop "
+    "terminates for every partitioner (code as repaired; the unrepaired loop provably hangs); kahypar's "
+    "short-circuits return full-length memberships; a preset bound to a function building its optimizer "
+    "per call answers every sequence of queries with a path of the queried network, one shared "
+    "RandomGreedyOptimizer provably does not, and a closed obligation over the table regenerated from the "
+    "live preset registry shows that no preset is bound to an object that carries a best-so-far between "
+    "calls. The remaining quantifier -- registered optimizer x sampled hyper-parameters x network x order "
+    "of calls in one process -- is explored with the verified checkers on the real outputs.")
 LEVEL_NOTE = (
-    "Trusted: Lean kernel; the hand-written models (Model/Path, Processor, Partition) validated by the "
-    "differential runs of this check; native kahypar, the numeric scores and every inner optimizer are "
-    "oracles (the theorems quantify over them); the `children` dict mechanics of contract_nodes are "
-    "checked on the real trees, not proved; harness canonicalisation and the independent Python oracles.")
+    "Trusted: Lean kernel; the hand-written models (Model/Path, Processor, Partition, ContractNodes, "
+    "BestSoFar) validated by the differential runs of this check; native kahypar, the numeric scores and "
+    "every inner optimizer are oracles (the theorems quantify over them); the `children` dict mechanics of "
+    "contract_nodes_pair and the nested case of get_incomplete_nodes are checked on the real trees, not "
+    "proved; the extractor of the preset table (harness/c05_presets.py: reflection over the live registry "
+    "+ AST of the registered classes); harness canonicalisation and the independent Python oracles.")
 TECHNIQUE = ("Lean 4 proofs (replay invariants, parametricity of the replay in the item type, termination "
              "measures) + certificate checking of real paths/trees + differential correspondence")
-LEAN_MODULES = ["CotengraVerif.Props.C05"]
+LEAN_MODULES = ["CotengraVerif.Props.C05", "CotengraVerif.Props.C05Facts"]
+ANCHOR_FILES = ["cotengra/__init__.py"]      # where most preset names are bound
 THEOREMS = [
     "Cotengra.C05.validLinear_iff_spec",
     "Cotengra.C05.validSSA_iff_spec",
@@ -69,14 +79,36 @@ THEOREMS = [
     "Cotengra.C05.agglom_counterexample",
     "Cotengra.C05.agglom_fixed_complete",
     "Cotengra.C05.kahypar_edge_cases",
+    "Cotengra.C05.divide_terminates",
+    "Cotengra.C05.agglom_terminates",
+    "Cotengra.C05.contractNodes_complete",
+    "Cotengra.C05.validShape_of_inner",
+    "Cotengra.C05.fromPath_kary_complete",
+    "Cotengra.C05.randomOptimizer_path_valid",
+    "Cotengra.C05.ssaToLinear_valid",
+    "Cotengra.C05.fromSSA_complete_noauto",
+    "Cotengra.C05.greedy_finder_valid",
+    "Cotengra.C05.random_greedy_preset_valid",
+    "Cotengra.C05.preset_fresh_per_call_valid",
+    "Cotengra.C05.preset_shared_instance_counterexample",
+    "Cotengra.C05.shared_instance_same_network_valid",
+    "Cotengra.C05.shared_instance_decreasing_valid",
+    "Cotengra.C05.presets_bound_safely",
+    "Cotengra.C05.random_greedy_presets_fresh",
+    "Cotengra.C05.presets_listed",
 ]
 TRUSTED = [
     "Lean 4.33 kernel; axioms ⊆ {propext, Classical.choice, Quot.sound}",
     "hand-written models Model/Path.lean (core.py:474-574, 1343-1399), Model/Processor.lean "
     "(path_basic.py:410-461, 475-527, 604-628, 761-786), Model/Partition.lean (core.py:3968-4077, 4100-4109, "
-    "path_kahypar.py:69-98), tied by this check on the generated cases only",
+    "path_kahypar.py:69-98), Model/ContractNodes.lean (core.py:1343-1399, path_basic.py:821-843, "
+    "path_random.py:25-35), Model/BestSoFar.lean (path_basic.py:1457-1458, 1519-1523; what register_preset "
+    "stores), tied by this check on the generated cases only",
     "native kahypar, greedy scores, DP result, PRNGs: oracles",
-    "harness: symbol renaming, children-dict dump, independent validity oracles",
+    "harness/c05_presets.py: the preset table is read off the live registry and the source of the registered "
+    "classes (a store through `self` on the query path that is read back there counts as carried state)",
+    "harness: symbol renaming, children-dict dump, independent validity oracles; sessions are forked from a "
+    "process image that has imported cotengra but not called into it",
 ]
 ASSUMPTIONS = [
     "finders are driven in-process with cotengrust absent; hyper-parameters are sampled uniformly "
@@ -84,14 +116,25 @@ ASSUMPTIONS = [
     "a call that does not return within the per-call limit (twice confirmed) counts as non-termination",
 ]
 RULE = ("corner-case networks (1 and 2 tensors, scalars, disconnected, hyper / repeated / dangling / "
-        "all-tensor indices, size-1 dims) and 11-40-tensor graphs x {presets, optimizer objects, registered "
-        "hyper functions with sampled parameters, HyperOptimizer.search, explicit linear/SSA/edge paths incl. "
-        "partial and multi-arity}; non-trivial = >= 3 tensors or a corner feature; distinct by content hash")
+        "all-tensor indices, size-1 dims) and 11-40-tensor graphs x {presets with interface options (shapes, "
+        "canonicalize, sort_contraction_indices), optimizer objects and functions with simplify / use_ssa / "
+        "cost options, registered hyper functions with sampled parameters, HyperOptimizer.search, explicit "
+        "linear/SSA/edge paths incl. partial and multi-arity with an explicit inner finder, partial trees "
+        "completed by autocomplete}; sessions = sequences of 2-6 calls in one pristine process image through "
+        "every registered preset string (registry enumerated at run time; cheaper-then-dearer, more-then-fewer "
+        "tensors and back) and through explicit linear / edge paths in tuple / list containers in every order; "
+        "non-trivial = >= 3 tensors or a corner feature; distinct by content hash")
 BUDGET = {"quick": 900, "thorough": 3600}
 
 PRESETS = ["greedy", "optimal", "optimal-outer", "auto", "auto-hq", "random"]
 HYPER_METHODS = ["greedy", "random-greedy", "labels", "kahypar", "kahypar-balanced", "kahypar-agglom",
                  "labels-agglom", "random"]
+
+
+def gen_facts():
+    """what every registered preset name is bound to, and what the classes of the registered instances
+    carry between calls -- read off the live registry of the checkout under test"""
+    return {"CotengraVerif/Generated/FactsC05.lean": c05_presets.lean_source(c05_presets.extract())}
 
 
 # ------------------------------------------------------------------------------ time limits
@@ -123,18 +166,24 @@ def call_timeout(seconds):
 _HANGS = set()   # (site, label, ntensors class, disconnected) already seen not to terminate in this run
 
 
-def guarded(fn, limit=5):
-    """Run fn(); returns ("ok", value) | ("raises", "TypeName: msg") | ("no-termination", limit)."""
-    for attempt in (1, 2):
+def guarded(fn, limit=5, warns=None, attempts=2):
+    """Run fn(); returns ("ok", value) | ("raises", "TypeName: msg") | ("no-termination", limit).
+    `warns` (a list) collects the texts of the warnings issued; `attempts=1` never re-runs fn (a
+    second run would change the state a sequence of calls is about)."""
+    for attempt in range(1, attempts + 1):
         try:
-            with call_timeout(limit * attempt), warnings.catch_warnings():
-                warnings.simplefilter("ignore")
-                return "ok", fn()
+            with call_timeout(limit * attempt), warnings.catch_warnings(record=True) as w:
+                warnings.simplefilter("always" if warns is not None else "ignore")
+                try:
+                    return "ok", fn()
+                finally:
+                    if warns is not None:
+                        warns.extend(str(x.message)[:90] for x in w)
         except CallTimeout:
             continue
         except Exception as e:  # noqa: BLE001 -- any exception is a failure to return a contraction
             return "raises", f"{type(e).__name__}: {str(e)[:160]}"
-    return "no-termination", 2 * limit
+    return "no-termination", attempts * limit
 
 
 def forked(fn, limit=20):
@@ -183,11 +232,13 @@ def forked(fn, limit=20):
 # ------------------------------------------------------------------------------ independent oracles
 
 
-def valid_linear(n, path):
-    """every step names >= 1 distinct existing positions; one tensor left"""
+def valid_linear(n, path, partial=False):
+    """every step names >= 1 distinct existing positions; one tensor left (unless `partial`)"""
     cur = n
     try:
         for step in path:
+            if any(isinstance(x, (str, bytes, float)) for x in step):
+                return False
             step = [int(x) for x in step]
             if len(step) == 0 or len(set(step)) != len(step):
                 return False
@@ -196,7 +247,7 @@ def valid_linear(n, path):
             cur = cur - len(step) + 1
     except (TypeError, ValueError):
         return False
-    return cur == 1
+    return partial or cur == 1
 
 
 def valid_ssa(n, path):
@@ -215,6 +266,23 @@ def valid_ssa(n, path):
     except (TypeError, ValueError):
         return False
     return len(live) == 1
+
+
+ORDERS = ["size", "neg-size", "min-leaf", "mixed", "surface_order"]
+
+
+def order_fn(key):
+    return {"size": len, "neg-size": (lambda node: -len(node)), "min-leaf": min,
+            "mixed": (lambda node: (sum(node) * 7 + len(node)) % 5)}.get(key, key)
+
+
+def ordered_paths(tree, n):
+    """`get_path / get_ssa_path(order=...)` of a returned tree: every admissible traversal order must give
+    a valid complete path as well (core.py:1481-1511, 2717-2800); which order is a function of the tree"""
+    key = ORDERS[(n + len(tree.children)) % len(ORDERS)]
+    return {"order": key,
+            "lin_ord": [[int(x) for x in s_] for s_ in tree.get_path(order=order_fn(key))],
+            "ssa_ord": [[int(x) for x in s_] for s_ in tree.get_ssa_path(order=order_fn(key))]}
 
 
 def dump_children(tree):
@@ -340,6 +408,120 @@ def net_class(net):
     return "1" if n == 1 else ("2" if n == 2 else ("3-10" if n <= 10 else "11+"))
 
 
+# ------------------------------------------------------------------------------ interface calls made in this process
+
+
+_DISPATCH_FIRST = {}    # (entry, container) -> "linear" | "edge": the first explicit flavour this process handed over
+
+
+def _note_dispatch(entry, optimize, n):
+    if entry == "tree" and n <= 2:
+        optimize = () if n == 1 else ((0, 1),)       # what array_contract_tree substitutes
+    if isinstance(optimize, (tuple, list)):
+        fl = "edge" if (len(optimize) and isinstance(optimize[0], (str, int))) else "linear"
+        _DISPATCH_FIRST.setdefault((entry, type(optimize).__name__), fl)
+
+
+_IFACE_HISTORY = []     # every public-interface call this process has made, as re-executable session calls
+
+
+def _raw_call(entry, inputs, output, sd, optimize, kw):
+    if isinstance(optimize, (tuple, list)):
+        opt = {"container": type(optimize).__name__,
+               "seq": [list(x) if isinstance(x, (tuple, list)) else x for x in optimize]}
+    else:
+        opt = {"preset": optimize}
+    return {"entry": entry, "raw": {"inputs": [list(t) for t in inputs], "output": list(output),
+                                    "size_dict": dict(sd) if sd is not None else None, "optimize": opt,
+                                    "kw": {k: ([list(x) for x in v] if k == "shapes" else v)
+                                           for k, v in kw.items()}}}
+
+
+def act(inputs, output, sd, optimize, **kw):
+    """array_contract_tree, remembering which flavour of explicit path each dispatch table saw first in
+    this process (find_tree / find_path memoise their handler per class of `optimize`) and the call"""
+    _note_dispatch("tree", optimize, len(inputs))
+    _IFACE_HISTORY.append(_raw_call("tree", inputs, output, sd, optimize, kw))
+    return ctg.array_contract_tree(inputs, output, sd, optimize=optimize, **kw)
+
+
+def acp(inputs, output, sd, optimize, **kw):
+    _note_dispatch("path", optimize, len(inputs))
+    _IFACE_HISTORY.append(_raw_call("path", inputs, output, sd, optimize, kw))
+    return ctg.array_contract_path(inputs, output, sd, optimize=optimize, **kw)
+
+
+def answer_ok(kind, n, val, partial=False):
+    """the implementation-side oracle on one answer (what `judge` demands)"""
+    try:
+        if kind == "ssa":
+            return bool(valid_ssa(n, val["path"]))
+        if kind == "path":
+            return bool(valid_linear(n, val["path"], partial=partial))
+        return bool(tree_ok(n, val["children"]) and val["N"] == n and valid_linear(n, val.get("lin"))
+                    and valid_ssa(n, val.get("ssa")) and valid_linear(n, val.get("lin_ord", val.get("lin")))
+                    and valid_ssa(n, val.get("ssa_ord", val.get("ssa"))))
+    except (KeyError, TypeError):
+        return False
+
+
+_PRISTINE_LEFT = [6]
+
+
+def pristine_case(ctx, case, h0, partial_ok=False):
+    """An interface call made in this (long-lived) process failed. If the same call fails when it is the
+    first thing a pristine process image does, the recorded case reproduces as it is. Otherwise the
+    failure needs state left by earlier interface calls: find a suffix of this process's history after
+    which it fails from a pristine image and turn the case into that session, so that the replay is
+    self-contained."""
+    calls_made = _IFACE_HISTORY[h0:]
+    if not calls_made or _PRISTINE_LEFT[0] <= 0:
+        return case
+    _PRISTINE_LEFT[0] -= 1          # a tree on which much fails: the first few cases get the treatment
+    last = dict(calls_made[-1], partial_ok=partial_ok)
+    zyg = zygote(ctx)
+
+    def fails(calls):
+        st, recs, _ = zyg.run(calls, limit=60, total=900)
+        return len(recs) == len(calls) and not record_ok(calls[-1], recs[-1])
+    if fails([last]):
+        ctx.count("in_process_failure:reproduces_as_single_call")
+        return case
+    hist = _IFACE_HISTORY[:h0] + calls_made[:-1]
+    k = 1
+    while True:
+        k = min(k, len(hist))
+        if fails(hist[len(hist) - k:] + [last]):
+            ctx.count("in_process_failure:needs_history")
+            return {"site": "session", "label": case.get("label"), "kind": last["entry"], "net": case.get("net"),
+                    "params": {}, "session": "history-of-this-process", "calls": hist[len(hist) - k:] + [last],
+                    "original": {k_: v for k_, v in case.items() if k_ != "net"}}
+        if k >= len(hist) or ctx.time_left() < 60:
+            break
+        k *= 4
+    ctx.count("in_process_failure:not_reproduced_from_pristine_image")
+    return case
+
+
+
+
+def prime_dispatch(first):
+    """replay side: hand over the same flavours first, in a process that has dispatched nothing yet"""
+    inputs, output, sd = [("a", "b"), ("b", "c"), ("c", "d")], ("a", "d"), {"a": 2, "b": 2, "c": 2, "d": 2}
+    for entry, container, flavour in first or []:
+        seq = [(0, 1), (0, 1)] if flavour == "linear" else ["b", "c"]
+        opt = tuple(seq) if container == "tuple" else list(seq)
+        try:
+            with warnings.catch_warnings():
+                warnings.simplefilter("ignore")
+                if entry == "tree":
+                    ctg.array_contract_tree(inputs, output, sd, optimize=opt)
+                else:
+                    ctg.array_contract_path(inputs, output, sd, optimize=opt, cache=False)
+        except Exception:  # noqa: BLE001 -- only the state left behind matters
+            pass
+
+
 # ------------------------------------------------------------------------------ finders
 
 
@@ -366,6 +548,29 @@ def args_of(net):
     return net.sym_inputs(), net.sym_output(), net.sym_sizes()
 
 
+def iface_kwargs(net, opts):
+    """keyword arguments of array_contract_path / array_contract_tree for an option set:
+    `shapes` instead of `size_dict`, `canonicalize=False`, `sort_contraction_indices=True` (tree only)"""
+    inputs, output, sd = args_of(net)
+    kw = {}
+    if opts.get("shapes"):
+        kw["shapes"] = [tuple(sd[ix] for ix in t) for t in inputs]
+        sd = None
+    if opts.get("canonicalize") is False:
+        kw["canonicalize"] = False
+    if opts.get("sort"):
+        kw["sort_contraction_indices"] = True
+    return inputs, output, sd, kw
+
+
+def iface_call(entry, net, optimize, opts):
+    inputs, output, sd, kw = iface_kwargs(net, opts)
+    if entry == "path":
+        kw.pop("sort_contraction_indices", None)
+        return acp(inputs, output, sd, optimize, cache=bool(opts.get("cache")), **kw)
+    return act(inputs, output, sd, optimize, **kw)
+
+
 def finder_catalogue(rng, net):
     """list of (site, kind, label, thunk, params) to run on `net`; kind in {path, tree}"""
     inputs, output, sd = args_of(net)
@@ -374,31 +579,45 @@ def finder_catalogue(rng, net):
     for p in PRESETS:
         if p.startswith("optimal") and not small:
             continue        # exponential by design; C09 covers it
+        opts = {}
+        if rng.random() < 0.35:
+            opts = {"shapes": rng.random() < 0.5, "canonicalize": rng.random() < 0.5,
+                    "sort": rng.random() < 0.5, "cache": rng.random() < 0.3}
         out.append(("array_contract_path", "path", p,
-                    lambda p=p: ctg.array_contract_path(inputs, output, sd, optimize=p, cache=False), {}))
+                    lambda p=p, opts=opts: iface_call("path", net, p, opts), {"iface": opts} if opts else {}))
         out.append(("array_contract_tree", "tree", p,
-                    lambda p=p: ctg.array_contract_tree(inputs, output, sd, optimize=p), {}))
+                    lambda p=p, opts=opts: iface_call("tree", net, p, opts), {"iface": opts} if opts else {}))
     seed = rng.randrange(1 << 30)
     cm, tp = rng.uniform(0.1, 4.0), rng.choice([0.0, 0.0, rng.uniform(0.001, 1.0)])
-    out.append(("GreedyOptimizer", "path", "obj",
-                lambda: pb.GreedyOptimizer(costmod=cm, temperature=tp)(inputs, output, sd),
-                {"costmod": cm, "temperature": tp}))
+    simp = rng.random() < 0.7        # simplify=False: the finder works on the network as given
+    gp = {"costmod": cm, "temperature": tp, "simplify": simp}
+    out.append(("GreedyOptimizer", "path", "obj", lambda: pb.GreedyOptimizer(**gp)(inputs, output, sd), dict(gp)))
     out.append(("GreedyOptimizer.search", "tree", "obj",
-                lambda: pb.GreedyOptimizer(costmod=cm, temperature=tp).search(inputs, output, sd),
-                {"costmod": cm, "temperature": tp}))
+                lambda: pb.GreedyOptimizer(**gp).search(inputs, output, sd), dict(gp)))
+    ssa = rng.random() < 0.5
+    fp = {"costmod": cm, "temperature": tp, "simplify": rng.random() < 0.5, "use_ssa": ssa}
+    out.append(("optimize_greedy", "ssa" if ssa else "path", "fn",
+                lambda: pb.optimize_greedy(inputs, output, sd, **fp), dict(fp)))
     mz = rng.choice(["flops", "size", "write", "max", "combo", "limit", "combo-3"])
     so = rng.random() < 0.5
     if small:
+        op = {"minimize": mz, "search_outer": so, "simplify": rng.random() < 0.7,
+              "cost_cap": rng.choice([2, 2, 1, 4])}
         out.append(("OptimalOptimizer", "path", "obj",
-                    lambda: pb.OptimalOptimizer(minimize=mz, search_outer=so)(inputs, output, sd),
-                    {"minimize": mz, "search_outer": so}))
+                    lambda: pb.OptimalOptimizer(**op)(inputs, output, sd), dict(op)))
+        ssa2 = rng.random() < 0.5
+        op2 = {"minimize": mz, "search_outer": so, "simplify": rng.random() < 0.5, "use_ssa": ssa2}
+        out.append(("optimize_optimal", "ssa" if ssa2 else "path", "fn",
+                    lambda: pb.optimize_optimal(inputs, output, sd, **op2), dict(op2)))
     reps = rng.choice([1, 2, 8])
+    rp = {"max_repeats": reps, "seed": seed, "simplify": rng.random() < 0.7}
+    if rng.random() < 0.3:
+        rp["costmod"] = (0.5, rng.uniform(0.6, 3.0))
+        rp["temperature"] = (0.01, rng.uniform(0.02, 0.5))
     out.append(("RandomGreedyOptimizer", "path", "obj",
-                lambda: pb.RandomGreedyOptimizer(max_repeats=reps, seed=seed, parallel=False)(inputs, output, sd),
-                {"max_repeats": reps, "seed": seed}))
+                lambda: pb.RandomGreedyOptimizer(parallel=False, **rp)(inputs, output, sd), dict(rp)))
     out.append(("RandomGreedyOptimizer.search", "tree", "obj",
-                lambda: pb.RandomGreedyOptimizer(max_repeats=reps, seed=seed, parallel=False)
-                .search(inputs, output, sd), {"max_repeats": reps, "seed": seed}))
+                lambda: pb.RandomGreedyOptimizer(parallel=False, **rp).search(inputs, output, sd), dict(rp)))
     out.append(("RandomOptimizer", "path", "obj",
                 lambda: ctg.pathfinders.path_random.RandomOptimizer(seed=seed)(inputs, output, sd),
                 {"seed": seed}))
@@ -418,16 +637,20 @@ def run_finder(ctx, drv, net, netname, site, kind, label, thunk, params, case_ex
     if hkey in _HANGS:
         ctx.count("skipped_after_hang:%s/%s" % (site, label))
         return None
+    first_before = [[e, c, f] for (e, c), f in _DISPATCH_FIRST.items()]
+    h0 = len(_IFACE_HISTORY)
+
     def produce():
         val = thunk()
-        if kind == "path":
-            return {"path": [[int(x) for x in s_] for s_ in val]}
+        if kind in ("path", "ssa"):
+            return {"path": [c05_sessions._jsonable_step(s_) for s_ in val]}
         tree = val
         out = {"children": dump_children(tree), "N": int(getattr(tree, "N", -1)), "nested": None}
         if tree_ok(n, out["children"]):
             out["lin"] = [[int(x) for x in s_] for s_ in tree.get_path()]
             out["ssa"] = [[int(x) for x in s_] for s_ in tree.get_ssa_path()]
             out["nested"] = gen.bt_of_real(tree)
+            out.update(ordered_paths(tree, n))
         return out
 
     if "kahypar" in label:
@@ -437,11 +660,27 @@ def run_finder(ctx, drv, net, netname, site, kind, label, thunk, params, case_ex
         status, val = guarded(produce)
     if status == "no-termination":
         _HANGS.add(hkey)
-    sig = {"site": site, "label": label, "ntensors": net_class(net)}
     case = {"net": net.json(), "site": site, "label": label, "params": params, "kind": kind}
     if case_extra:
         case.update(case_extra)
-    ctx.case(case, nontrivial=(n >= 3 or bool(set(feats) & {"scalar", "disconnected", "repeated"})))
+    if first_before and (site.startswith(("array_contract", "explicit-")) or site == "sequence"):
+        case["dispatch_first"] = first_before
+    if len(_IFACE_HISTORY) > h0 and not (status == "ok" and answer_ok(kind, n, val)):
+        case = pristine_case(ctx, case, h0)
+    return judge(ctx, drv, net, netname, site, kind, label, status, val, case)
+
+
+def judge(ctx, drv, net, netname, site, kind, label, status, val, case, sig_extra=None, count_case=True):
+    """the verdict on one answer of the real code: independent oracles first (failure -> violation),
+    then the verified Lean checkers on the same artefact (disagreement -> broken correspondence).
+    Returns the value when it is a valid complete contraction of `net`, else None."""
+    n = len(net.inputs)
+    feats = net.features()
+    sig = {"site": site, "label": label, "ntensors": net_class(net)}
+    if sig_extra:
+        sig.update(sig_extra)
+    if count_case:
+        ctx.case(case, nontrivial=(n >= 3 or bool(set(feats) & {"scalar", "disconnected", "repeated"})))
     ctx.count("site:" + site)
     ctx.count("finder:%s/%s" % (site, label))
     ctx.count("ntensors:" + net_class(net))
@@ -454,13 +693,27 @@ def run_finder(ctx, drv, net, netname, site, kind, label, thunk, params, case_ex
                       "%s(%s) on %s (%d tensors): %s %s" % (site, label, netname, n, status, val))
         return None
     ctx.count("outcome:ok")
+    if kind == "ssa":
+        path = val["path"]
+        if not valid_ssa(n, path):
+            sig["error"] = "invalid-path"
+            ctx.violation(sig, {"case": case, "observed": path},
+                          "%s(%s): returned ssa path is not a complete valid contraction of the %d inputs"
+                          % (site, label, n))
+            return None
+        r = drv.call("c05.check_ssa", n=n, path=path)
+        ctx.traces += 1
+        if r.get("complete") is not True:
+            ctx.corr_broken("Lean checkSSA rejects a path the independent oracle accepts", case)
+        return val
     if kind == "path":
         path = val["path"]
         ok = valid_linear(n, path)
         if not ok:
             sig["error"] = "invalid-path"
             ctx.violation(sig, {"case": case, "observed": path},
-                          "%s(%s): returned linear path is not a complete valid contraction" % (site, label))
+                          "%s(%s): returned linear path is not a complete valid contraction of the %d inputs"
+                          % (site, label, n))
             return None
         r = drv.call("c05.check_linear", n=n, path=path)
         ctx.traces += 1
@@ -471,6 +724,12 @@ def run_finder(ctx, drv, net, netname, site, kind, label, thunk, params, case_ex
     ok = tree_ok(n, children) and val["N"] == n
     lin, ssa = val.get("lin"), val.get("ssa")
     paths_ok = ok and valid_linear(n, lin) and valid_ssa(n, ssa)
+    if paths_ok and "lin_ord" in val:
+        ctx.count("tree_order:" + str(val.get("order")))
+        if not (valid_linear(n, val["lin_ord"]) and valid_ssa(n, val["ssa_ord"])):
+            paths_ok = False
+            lin, ssa = val["lin_ord"], val["ssa_ord"]
+            sig["order"] = val.get("order")
     if not ok or not paths_ok:
         sig["error"] = "incomplete-tree" if not ok else "invalid-path-of-tree"
         ctx.violation(sig, {"case": case, "observed": {"children": children, "path": lin, "ssa": ssa}},
@@ -480,6 +739,9 @@ def run_finder(ctx, drv, net, netname, site, kind, label, thunk, params, case_ex
     r1 = drv.call("c05.check_linear", n=n, path=lin)
     r2 = drv.call("c05.check_ssa", n=n, path=ssa)
     ctx.traces += 1
+    if "lin_ord" in val and r1.get("complete") is True and r2.get("complete") is True:
+        r1 = drv.call("c05.check_linear", n=n, path=val["lin_ord"])
+        r2 = drv.call("c05.check_ssa", n=n, path=val["ssa_ord"])
     if r.get("complete") is not True or r1.get("complete") is not True or r2.get("complete") is not True:
         ctx.corr_broken("Lean checkers reject a tree / path the independent oracles accept", case)
     return val
@@ -531,18 +793,25 @@ def check_explicit(ctx, drv, net, netname, rng):
         if not ep:
             return
         run_finder(ctx, drv, net, netname, "explicit-edge-path", "tree", "tree",
-                   lambda: ctg.array_contract_tree(inputs, output, sd, optimize=ep), {"edge_path": list(ep)})
-        st, path = guarded(lambda: ctg.array_contract_path(inputs, output, sd, optimize=ep, cache=False))
+                   lambda: act(inputs, output, sd, ep), {"edge_path": list(ep)})
+        first_before = [[e, c, f] for (e, c), f in _DISPATCH_FIRST.items()]
+        h0 = len(_IFACE_HISTORY)
+        st, path = guarded(lambda: acp(inputs, output, sd, ep, cache=False))
         if st == "ok":
             # an edge path may legitimately stop early: it must replay, and from_path completes it
-            path = [[int(x) for x in s] for s in path]
+            path = [c05_sessions._jsonable_step(s) for s in path]
+            if not valid_linear(n, path, partial=True):
+                case = {"net": net.json(), "site": "explicit-edge-path", "label": "path",
+                        "params": {"edge_path": list(ep)}, "kind": "path-partial", "dispatch_first": first_before}
+                case = pristine_case(ctx, case, h0, partial_ok=True)
+                ctx.violation({"site": "explicit-edge-path", "label": "path", "ntensors": net_class(net),
+                               "error": "invalid-path"}, {"case": case, "observed": path},
+                              "edge path converts to a linear path naming a position that does not exist")
+                return
             r = drv.call("c05.check_linear", n=n, path=path)
             if not r.get("replays"):
-                ctx.violation({"site": "explicit-edge-path", "label": "path", "ntensors": net_class(net),
-                               "error": "invalid-path"},
-                              {"case": {"net": net.json(), "site": "explicit-edge-path", "label": "path",
-                                        "params": {"edge_path": list(ep)}}, "observed": path},
-                              "edge path converts to a linear path naming a position that does not exist")
+                ctx.corr_broken("Lean checkLinearPartial rejects a path the oracle accepts",
+                                {"net": net.json(), "path": path})
         return
     if flavour == "malformed":
         path = rand_linear_path(rng, n)
@@ -588,11 +857,10 @@ def check_explicit(ctx, drv, net, netname, rng):
     if not ssa and not partial and all(len(s) == 2 for s in path):
         # the public route for explicit linear paths
         run_finder(ctx, drv, net, netname, "explicit-linear-path", "tree", "tree",
-                   lambda: ctg.array_contract_tree(inputs, output, sd, optimize=[tuple(s) for s in path]),
+                   lambda: act(inputs, output, sd, [tuple(s) for s in path]),
                    {"path": path})
         run_finder(ctx, drv, net, netname, "explicit-linear-path", "path", "path",
-                   lambda: ctg.array_contract_path(inputs, output, sd, optimize=[tuple(s) for s in path],
-                                                   cache=False), {"path": path})
+                   lambda: acp(inputs, output, sd, [tuple(s) for s in path], cache=False), {"path": path})
 
 
 # ------------------------------------------------------------------------------ processor (E)
@@ -788,17 +1056,75 @@ def check_builders(ctx, drv, rng):
     builder = ccore.PartitionTreeBuilder(fn)
     which = rng.choice(["divide", "agglom"])
     ctx.count("builder:%s/%s" % (which, style))
+    sub = rng.choice(["greedy", "greedy", "auto", "optimal", "auto-hq"])
+    seed = rng.choice([None, 1, rng.randrange(1 << 20)])
     if which == "divide":
         cutoff = rng.choice([0, 1, 2, 3, 10])
         parts = rng.randint(2, 6)
-        thunk = lambda: builder.build_divide(*args_of(net), cutoff=cutoff, parts=parts, seed=1)  # noqa: E731
-        params = {"cutoff": cutoff, "parts": parts, "partitioner": style}
+        sup = rng.choice(["auto-hq", "auto-hq", "greedy", "auto", "optimal"])
+        extra = {"sub_optimize": sub, "super_optimize": sup, "seed": seed,
+                 "parts_decay": rng.choice([0.5, 0.0, 1.0]), "random_strength": rng.choice([0.01, 0.0, 0.5])}
+        thunk = lambda: builder.build_divide(*args_of(net), cutoff=cutoff, parts=parts, **extra)  # noqa: E731
+        params = dict({"cutoff": cutoff, "parts": parts, "partitioner": style}, **extra)
     else:
-        groupsize = rng.choice([1, 2, 3, 4])
-        thunk = lambda: builder.build_agglom(*args_of(net), groupsize=groupsize)  # noqa: E731
-        params = {"groupsize": groupsize, "partitioner": style}
+        groupsize = rng.choice([1, 2, 3, 4, 6])
+        extra = {"sub_optimize": sub, "seed": seed, "random_strength": rng.choice([0.01, 0.0, 0.5])}
+        thunk = lambda: builder.build_agglom(*args_of(net), groupsize=groupsize, **extra)  # noqa: E731
+        params = dict({"groupsize": groupsize, "partitioner": style}, **extra)
+    trace = []
+    if which == "divide":
+        # intermediate state: `tree.childless` before and after every iteration of the loop (each makes
+        # exactly one outermost contract_nodes call)
+        orig_cn = ccore.ContractionTree.contract_nodes
+        depth = [0]
+
+        def rec_cn(self, nodes, *a, **k):
+            top = depth[0] == 0 and getattr(self, "track_childless", False)
+            if top:
+                entry = {"before": [[int(x) for x in nd] for nd in self.childless],
+                         "nodes": [sorted(int(x) for x in nd) for nd in nodes], "calls": len(log)}
+            depth[0] += 1
+            try:
+                out = orig_cn(self, nodes, *a, **k)
+            finally:
+                depth[0] -= 1
+            if top:
+                entry["after"] = [sorted(int(x) for x in nd) for nd in self.childless]
+                trace.append(entry)
+            return out
+        inner_thunk = thunk
+
+        def thunk():            # noqa: F811
+            ccore.ContractionTree.contract_nodes = rec_cn
+            try:
+                return inner_thunk()
+            finally:
+                ccore.ContractionTree.contract_nodes = orig_cn
     tree = run_finder(ctx, drv, net, "adversarial", "PartitionTreeBuilder." + which, "tree", style, thunk,
                       params, case_extra={"builder": which})
+    if which == "divide" and tree is not None and trace:
+        ok_trace = True
+        for it, e in enumerate(trace):
+            sub = e["before"][0] if e["before"] else []
+            if sorted(x for nd in e["nodes"] for x in nd) != sorted(sub):
+                ctx.corr_broken("build_divide: the contracted nodes are not a division of the first childless "
+                                "node", {"iteration": it, "entry": e, "params": params})
+                ok_trace = False
+                break
+            partitioned = len(sub) > params["cutoff"]
+            m = log[e["calls"] - 1] if (partitioned and e["calls"] >= 1) else []
+            r = drv.call("c05.divide_step", cutoff=params["cutoff"], childless=e["before"], membership=m, pick=0)
+            ctx.traces += 1
+            got = sorted(sorted(x) for x in r.get("childless", []))
+            if r.get("result") != "ok" or got != sorted(e["after"]):
+                ctx.corr_broken("build_divide: `tree.childless` after an iteration differs from divideStep",
+                                {"iteration": it, "entry": e, "membership": m, "model": r, "params": params})
+                ok_trace = False
+                break
+        if ok_trace:
+            ctx.count("divide_iterations_compared", len(trace))
+            if trace[-1]["after"]:
+                ctx.corr_broken("build_divide returned with childless nodes left", {"params": params})
     if which == "divide" and tree is not None:
         # divide_terminates_partial bounds the iterations, hence the partitioner calls, by N - 1
         ctx.count("divide_partition_calls", len(log))
@@ -821,6 +1147,24 @@ def check_builders(ctx, drv, rng):
             ctx.corr_broken("build_agglom fails where the model of the loop terminates", params)
         else:
             ctx.count("agglom:hang-reproduced-in-model-and-code")
+
+
+def check_labels_options(ctx, drv, rng):
+    """`labels_partition` options the registered search space leaves at their default (weight_nodes,
+    maxiter, parts) through the builder object the 'labels' methods are made of"""
+    from cotengra.pathfinders import path_labels as pl
+    net = medium_net(rng, 5, 16) if rng.random() < 0.7 else gen.rand_net(rng, nmin=2, nmax=8)
+    opts = {"weight_nodes": rng.choice(["const", "linear", "log"]), "weight_edges": rng.choice(["const", "log"]),
+            "maxiter": rng.choice([None, 0, 1, 3, 50]), "memory": rng.choice([-2, -1, 0, 1]),
+            "final_sweep": rng.random() < 0.5}
+    which = rng.choice(["divide", "agglom"])
+    if which == "divide":
+        opts.update({"cutoff": rng.choice([0, 2, 10]), "parts": rng.randint(1, 6)})
+        thunk = lambda: pl.labels_to_tree.build_divide(*args_of(net), seed=7, **opts)  # noqa: E731
+    else:
+        opts.update({"groupsize": rng.choice([2, 4])})
+        thunk = lambda: pl.labels_to_tree.build_agglom(*args_of(net), seed=7, **opts)  # noqa: E731
+    run_finder(ctx, drv, net, "labels-options", "labels_to_tree." + which, "tree", "labels", thunk, opts)
 
 
 # ------------------------------------------------------------------------------ sequences of related networks
@@ -883,8 +1227,8 @@ SEQ_ROUTES = ["auto", "auto-hq", "greedy", "ReusableHyperOptimizer", "ReusableRa
 def make_route(route, seed):
     """-> (path_fn(net), tree_fn(net)) sharing whatever state the route keeps between calls"""
     if route in ("auto", "auto-hq", "greedy"):
-        return (lambda net: ctg.array_contract_path(*args_of(net), optimize=route),
-                lambda net: ctg.array_contract_tree(*args_of(net), optimize=route))
+        return (lambda net: acp(*args_of(net), route),
+                lambda net: act(*args_of(net), route))
     if route == "ReusableHyperOptimizer":
         opt = ctg.ReusableHyperOptimizer(methods=["greedy"], max_repeats=2, parallel=False, optlib="random",
                                          progbar=False)
@@ -930,6 +1274,649 @@ def check_sequence(ctx, drv, rng):
 _seq_hist = []
 
 
+# ------------------------------------------------------------------------------ sessions (pristine process image)
+
+
+_ZYG = [None]
+_CALLED_INTO_COTENGRA = [False]
+
+
+def zygote(ctx=None, drv=None):
+    """the pristine process image every session is forked from (see harness/c05_sessions.py); created
+    at the very start of run(), before this process makes its first call into cotengra"""
+    if _ZYG[0] is None:
+        import atexit
+        fds = []
+        if drv is not None and getattr(drv, "p", None) is not None:
+            fds = [drv.p.stdin.fileno(), drv.p.stdout.fileno()]
+        _ZYG[0] = c05_sessions.Zygote(close_fds=fds)
+        atexit.register(_ZYG[0].close)
+        if ctx is not None:
+            ctx.notes["sessions_forked_from_pristine_image"] = not _CALLED_INTO_COTENGRA[0]
+    return _ZYG[0]
+
+
+def preset_registry():
+    """every registered preset name (read off the live registry) with the routes it has, whether it is
+    a compressed (non-exact) finder, and -- only for an environmental reason that is checked here --
+    why it cannot run in this environment"""
+    import importlib.util
+    import shutil
+    names, ppath, ptree, compressed = c05_presets.registry()
+    out = []
+    for name in names:
+        fn = ppath.get(name, ptree.get(name))
+        kind, target, _, _ = c05_presets.describe(fn)
+        reason = None
+        if target.startswith("path_flowcutter.") and shutil.which("flow_cutter_pace17") is None:
+            reason = "external executable flow_cutter_pace17 not installed"
+        elif target.startswith("path_quickbb.") and shutil.which("quickbb_64") is None:
+            reason = "external executable quickbb_64 not installed"
+        elif name in ("hyper-spinglass", "hyper-betweenness") and importlib.util.find_spec("igraph") is None:
+            reason = "python-igraph not installed"
+        out.append({"name": name, "kind": kind, "target": target, "compressed": name in compressed,
+                    "unavailable": reason, "slow": ("hyper" in target or "hyper" in name)})
+    return out
+
+
+def chain_net(n, d=2):
+    return gen.Net([[i, i + 1] for i in range(n)], [0, n], {i: d for i in range(n + 1)})
+
+
+def ladder_net(rng, nmin, nmax):
+    """a network out of a family with widely varying cost: what one best-so-far must not survive"""
+    n = rng.randint(nmin, nmax)
+    d = rng.choice([2, 2, 3, 5, 7])
+    shape = rng.choice(["ring", "ring", "chain", "graph", "corner"])
+    if shape == "ring" and n >= 3:
+        return ring_net(n, d)
+    if shape == "chain":
+        return chain_net(n, d)
+    if shape == "corner":
+        cands = [net for _, net in corner_nets() if nmin <= len(net.inputs) <= nmax]
+        if cands:
+            return rng.choice(cands)
+    if n >= 5:
+        return medium_net(rng, n, n + 1)
+    return gen.rand_net(rng, nmin=max(nmin, 2), nmax=max(n, 2))
+
+
+def net_cost_key(net):
+    return (len(net.inputs), max(net.sizes.values(), default=1))
+
+
+def explicit_call(rng, net, flavour, container, entry, same_order=False):
+    n = len(net.inputs)
+    if flavour == "linear":
+        spec = {"kind": "linear", "path": rand_linear_path(rng, n), "container": container}
+    else:
+        inds = sorted(net.indices())
+        if not same_order:              # same_order: the very same tuple of names for different networks
+            rng.shuffle(inds)
+        spec = {"kind": "edge", "inds": inds, "container": container}
+    return {"entry": entry, "net": net.json(), "opt": spec, "cache": rng.random() < 0.3,
+            "partial_ok": flavour == "edge" and entry == "path"}
+
+
+def gen_session(rng, presets, kind, focus=None):
+    """-> (label, calls). kinds: 'preset' (one name), 'shared' (names bound to the same class),
+    'explicit' (explicit linear / edge paths in tuple / list containers and the implicit ((0, 1),) of
+    1-/2-tensor trees, in every order), 'mixed'"""
+    avail = [p for p in presets if not p["unavailable"]]
+    calls = []
+    if kind in ("preset", "shared"):
+        p0 = focus or rng.choice(avail)
+        if kind == "shared":
+            group = [p for p in avail if p["target"] == p0["target"] and p["kind"] == p0["kind"]] or [p0]
+        else:
+            group = [p0]
+        slow = any(p["slow"] for p in group)
+        exp = any(p["name"].startswith(("optimal", "dp", "dynamic")) or "Optimal" in p["target"] for p in group)
+        nmin = 2 if slow else 1
+        nmax = 6 if slow else (8 if exp else 10)
+        k = rng.randint(2, 3) if slow else rng.randint(3, 5)
+        nets = [ladder_net(rng, nmin, nmax) for _ in range(k)]
+        order = rng.choice(["random", "cheap-first", "dear-first", "repeat"])
+        if order == "cheap-first":
+            nets.sort(key=net_cost_key)
+        elif order == "dear-first":
+            nets.sort(key=net_cost_key, reverse=True)
+        elif order == "repeat":
+            nets = nets[:2] + [nets[0]] + nets[2:]
+        for net in nets:
+            p = rng.choice(group)
+            if any(q["compressed"] for q in group) and (set(net.features()) & {"scalar", "disconnected"}
+                                                       or len(net.inputs) < 3):
+                # compressed (non-exact, experimental) finders are outside the property's scope: 'greedy-span'
+                # stops at the first component of a disconnected network, the compressed greedy finder takes
+                # max() of nothing on index-free groups. They are still run in sequences (for state carried
+                # between calls), on plain connected networks only.
+                net = rng.choice([ring_net, chain_net])(rng.randint(3, 8), rng.choice([2, 3, 5]))
+            calls.append({"entry": rng.choice(["path", "tree"]), "net": net.json(),
+                          "opt": {"kind": "preset", "name": p["name"]}, "cache": rng.random() < 0.3,
+                          "limit": 300 if slow else 60})
+        return (p0["name"] if kind == "preset" else "shared:" + p0["target"]), calls
+    fast = [p for p in avail if not p["slow"] and not p["compressed"]
+            and not p["name"].startswith(("optimal", "dp", "dynamic"))]
+    same_order = rng.random() < 0.4
+    same_m = rng.randint(3, 6)
+    for _ in range(rng.randint(3, 6)):
+        what = rng.choice(["linear", "edge", "small-tree", "preset"] if kind == "mixed" else
+                          ["linear", "linear", "edge", "edge", "small-tree"])
+        if what == "small-tree":
+            net = rng.choice([net for _, net in corner_nets() if len(net.inputs) <= 2])
+            calls.append({"entry": "tree", "net": net.json(), "opt": {"kind": "preset", "name": "greedy"},
+                          "cache": False})
+        elif what == "preset":
+            net = ladder_net(rng, 1, 8)
+            calls.append({"entry": rng.choice(["path", "tree"]), "net": net.json(),
+                          "opt": {"kind": "preset", "name": rng.choice(fast)["name"]}, "cache": rng.random() < 0.3})
+        else:
+            net = ladder_net(rng, 2, 8)
+            if what == "edge" and (not net.indices() or same_order):
+                # rings and chains over the same index names 0..m-1: different networks, equal edge paths
+                m = same_m
+                net = ring_net(m, rng.choice([2, 3])) if rng.random() < 0.5 else chain_net(m - 1, rng.choice([2, 3]))
+            calls.append(explicit_call(rng, net, what, rng.choice(["tuple", "tuple", "list"]),
+                                       rng.choice(["path", "tree"]), same_order=same_order))
+    return kind, calls
+
+
+def record_ok(call, rec):
+    """implementation-side verdict on one record of a session (python oracles only)"""
+    if rec.get("status") != "ok":
+        return False
+    n = len(call["raw"]["inputs"]) if "raw" in call else len(call["net"]["inputs"])
+    return answer_ok(call["entry"], n, rec["val"], partial=bool(call.get("partial_ok")))
+
+
+def run_session(ctx, drv, label, calls, skind):
+    """execute in a pristine image, judge every answer; -> (all ok, seconds per call)"""
+    zyg = zygote(ctx)
+    limit = max(c.get("limit", 60) for c in calls)
+    status, recs, detail = zyg.run(calls, limit=limit)
+    ctx.count("session:" + skind)
+    ctx.count("session_calls", len(calls))
+    secs = [r.get("s", 0) for r in recs]
+    if status == "harness-error":
+        raise RuntimeError("session driver: " + str(detail))
+    ok_all = True
+    for i, call in enumerate(calls):
+        net = gen.Net.from_json(call["net"])
+        opt = call["opt"]
+        optname = opt["name"] if opt["kind"] == "preset" else "%s-%s" % (opt["kind"], opt.get("container"))
+        case = {"site": "session", "label": label, "kind": call["entry"], "net": call["net"], "params": {},
+                "session": skind, "calls": calls[:i + 1]}
+        sig_extra = {"opt": optname, "step": "first" if i == 0 else "later"}
+        if i >= len(recs):
+            # the session ended here without an answer: killed by a signal or by the time limit
+            judge(ctx, drv, net, "session", "session", call["entry"], label, status, str(detail), case, sig_extra)
+            ok_all = False
+            break
+        rec = recs[i]
+        ctx.count("session_opt:" + opt["kind"])
+        ctx.count("session_step:%s/%s" % (optname, call["entry"]))
+        for wtxt in rec.get("warn", []):
+            if "not complete" in wtxt:
+                ctx.count("session_warn:path-autocompleted")
+        if rec["status"] == "ok" and call["entry"] == "path" and call.get("partial_ok"):
+            # an edge path may legitimately stop early: it must replay (from_path completes it)
+            path = rec["val"]["path"]
+            ctx.case(case, nontrivial=len(net.inputs) >= 3)
+            if not valid_linear(len(net.inputs), path, partial=True):
+                sig = {"site": "session", "label": label, "ntensors": net_class(net), "error": "invalid-path"}
+                sig.update(sig_extra)
+                ctx.violation(sig, {"case": case, "observed": path},
+                              "session %s step %d: edge path converts to a linear path naming a position "
+                              "that does not exist" % (label, i))
+                ok_all = False
+                break
+            r = drv.call("c05.check_linear", n=len(net.inputs), path=path)
+            ctx.traces += 1
+            if not r.get("replays"):
+                ctx.corr_broken("Lean checkLinearPartial rejects a path the oracle accepts", case)
+            continue
+        val = judge(ctx, drv, net, "session", "session", call["entry"], label, rec["status"],
+                    rec.get("val") if rec["status"] == "ok" else rec.get("msg"), case, sig_extra)
+        if val is None:
+            ok_all = False
+            break
+    return ok_all, secs
+
+
+def check_c16_agreement(ctx):
+    """the classes C16's extractor (harness/c16.py, every store through `self` on the query path) vouches
+    stateless must carry nothing in this check's table either (C05 lists fewer stores by design: only
+    those that are read back on the query path): two independent extractors, one fact"""
+    try:
+        from . import c16
+        theirs = c16.extract_facts()["presets"]
+    except Exception as e:  # noqa: BLE001 -- C16's module is not ours; its absence is not a verdict
+        ctx.notes["c16_extractor"] = "not available: %r" % (e,)
+        return
+    mine = c05_presets.extract()["carried"]
+    bad = {c: [theirs[c], mine.get(c)] for c in theirs if c in mine and (mine[c] and not theirs[c])}
+    ctx.notes["c16_extractor"] = {"c16": theirs, "c05": {c: mine.get(c) for c in theirs}}
+    ctx.obligation("preset classes C16's extractor finds store-free carry nothing in C05's preset table", not bad,
+                   json.dumps(bad)[:300])
+
+
+def check_sessions(ctx, drv, rng, budget_s, rounds):
+    """sequences through every registered preset string and through explicit paths, each in a
+    pristine process image"""
+    t0 = time.time()
+    presets = preset_registry()
+    ctx.notes["presets_registered"] = [p["name"] for p in presets]
+    ctx.notes["presets_unavailable_here"] = {p["name"]: p["unavailable"] for p in presets if p["unavailable"]}
+    avail = [p for p in presets if not p["unavailable"]]
+    fast = [p for p in avail if not p["slow"]]
+    slow = [p for p in avail if p["slow"]]
+    rng.shuffle(slow)                                   # which slow presets come first differs per seed
+    plan = []
+    for r in range(rounds):
+        for p in fast:
+            plan.append(("preset", p))
+        plan += [("explicit", None)] * 6 + [("mixed", None), ("mixed", None), ("shared", None)]
+        if r == 0:
+            for p in slow:
+                plan.append(("preset", p))
+    spent = {}
+    for skind, p in plan:
+        if time.time() - t0 > budget_s or ctx.time_left() < 40:
+            ctx.count("sessions_plan_cut_short")
+            break
+        if p is not None and p["slow"] and time.time() - t0 > 0.6 * budget_s:
+            ctx.count("sessions_slow_preset_skipped:" + p["name"])
+            continue
+        label, calls = gen_session(rng, presets, skind, focus=p)
+        ok, secs = run_session(ctx, drv, label, calls, skind)
+        if p is not None:
+            spent[p["name"]] = round(spent.get(p["name"], 0) + sum(secs), 2)
+    ctx.notes["session_seconds_per_preset"] = spent
+    ctx.count("session_seconds_total", int(time.time() - t0))
+
+
+# ------------------------------------------------------------------------------ best-so-far state (E)
+
+
+def _ranks(values):
+    order = sorted(set(values))
+    return {v: i for i, v in enumerate(order)}
+
+
+def check_best_so_far(ctx, drv, rng):
+    """`RandomGreedyOptimizer`'s carried state against Model/BestSoFar (E, intermediate state after
+    every call): (1) one *shared* instance driven over different networks -- its documented misuse, what a
+    preset bound to an instance would do -- with the inner finder's results logged: returned path,
+    `best_ssa_path` and `best_flops` after every call must be the model's; (2) the function the
+    'random-greedy' preset is bound to, same sequence: every answer is the path found for the queried
+    network (`Binding.freshPerCall`)."""
+    nets = [ladder_net(rng, 2, 8) for _ in range(rng.randint(2, 5))]
+    if rng.random() < 0.3:
+        nets.append(nets[0])
+    seed = rng.randrange(1 << 30)
+    reps = rng.choice([1, 2, 4])
+    log, answers, snaps = [], [], []
+
+    def real_shared():
+        opt = pb.RandomGreedyOptimizer(max_repeats=reps, seed=seed, parallel=False)
+        inner = opt._optimize_fn
+
+        def rec(*a, **k):
+            r = inner(*a, **k)
+            log.append(r)
+            return r
+        opt._optimize_fn = rec
+        for net in nets:
+            ans = opt.ssa_path(*args_of(net))
+            answers.append([list(map(int, st)) for st in ans])
+            snaps.append(([list(map(int, st)) for st in opt.best_ssa_path], opt.best_flops))
+    st, msg = guarded(real_shared, limit=30)
+    ctx.count("best_so_far:shared_sequences")
+    case = {"nets": [x.json() for x in nets], "seed": seed, "max_repeats": reps}
+    if st != "ok" or len(log) != len(nets):
+        ctx.corr_broken("RandomGreedyOptimizer.ssa_path could not be driven as the model assumes "
+                        "(one inner search per call): %s %s" % (st, msg), case)
+        return
+    rk = _ranks([f for _, f in log] + [f for _, f in snaps])
+    found = [{"path": [list(map(int, s_)) for s_ in p_], "flops": rk[f]} for p_, f in log]
+    r = drv.call("c05.best_so_far", found=found, shared=True)
+    ctx.traces += 1
+    model_states = [(s_["best"], s_["flops"]) for s_ in r.get("states", [])]
+    real_states = [(p_, rk[f]) for p_, f in snaps]
+    if r.get("answers") != answers or model_states != real_states:
+        ctx.corr_broken("RandomGreedyOptimizer: returned path / best_ssa_path / best_flops after each call "
+                        "differ from Model/BestSoFar", dict(case, real=[answers, real_states], model=r))
+        return
+    wrong = sum(1 for net, a in zip(nets, answers) if not valid_ssa(len(net.inputs), a))
+    ctx.count("best_so_far:shared_instance_answers", len(nets))
+    ctx.count("best_so_far:shared_instance_answers_for_another_network", wrong)
+    # (2) the binding of the preset itself
+    from cotengra import interface as I
+    fn = I._PRESETS_PATH.get(rng.choice(["random-greedy", "random-greedy-128"]))
+    kind = c05_presets.describe(fn)[0] if fn is not None else "missing"
+    ctx.count("best_so_far:preset_bound_to_" + kind)
+    if kind not in ("function", "partial"):
+        return
+    log2, answers2 = [], []
+    orig = pb.optimize_random_greedy_track_flops
+
+    def rec2(*a, **k):
+        r_ = orig(*a, **k)
+        log2.append(r_)
+        return r_
+
+    def real_fresh():
+        pb.optimize_random_greedy_track_flops = rec2
+        pb.get_optimize_random_greedy_track_flops.cache_clear()    # an lru_cache holds the function
+        try:
+            for net in nets:
+                ans = fn(*args_of(net), parallel=False, max_repeats=reps, seed=seed)
+                answers2.append([list(map(int, st)) for st in ans])
+        finally:
+            pb.optimize_random_greedy_track_flops = orig
+            pb.get_optimize_random_greedy_track_flops.cache_clear()
+    st, msg = guarded(real_fresh, limit=30)
+    if st != "ok" or len(log2) != len(nets):
+        ctx.corr_broken("the function behind the 'random-greedy' preset could not be driven as the model "
+                        "assumes (a fresh optimizer and one inner search per call): %s %s" % (st, msg), case)
+        return
+    rk2 = _ranks([f for _, f in log2])
+    found2 = [{"path": [list(map(int, s_)) for s_ in p_], "flops": rk2[f]} for p_, f in log2]
+    r2 = drv.call("c05.best_so_far", found=found2, shared=False)
+    ctx.traces += 1
+    want = [[list(map(int, st)) for st in pb.ssa_to_linear(a)] if a is not None else None
+            for a in r2.get("answers", [])]
+    if want != answers2:
+        ctx.corr_broken("preset function: the answers are not the paths found for the queried networks "
+                        "(Binding.freshPerCall)", dict(case, real=answers2, model=r2))
+        return
+    for net, a in zip(nets, answers2):
+        if not valid_linear(len(net.inputs), a):
+            ctx.violation({"site": "preset-function", "label": "random-greedy", "ntensors": net_class(net),
+                           "error": "invalid-path"},
+                          {"case": {"site": "array_contract_path", "label": "random-greedy", "net": net.json(),
+                                    "params": {}}, "observed": a},
+                          "random-greedy preset function: invalid path")
+    ctx.count("best_so_far:fresh_sequences")
+
+
+# ------------------------------------------------------------------------------ k-ary steps, RandomOptimizer, ssa_to_linear (E)
+
+
+class InnerFinder:
+    """an `optimize` object for `contract_nodes`: answers with the given pairwise paths in order (replay)
+    or with random valid pairwise paths (recorded)"""
+
+    def __init__(self, rng=None, answers=None):
+        self.rng, self.answers, self.log = rng, list(answers or []), []
+
+    def __call__(self, inputs, output, size_dict, **kw):
+        k = len(inputs)
+        if self.answers:
+            path = self.answers.pop(0)
+        else:
+            path = rand_linear_path(self.rng, k)
+        self.log.append([k, [list(st) for st in path]])
+        return [tuple(st) for st in path]
+
+
+def kary_keys(n, path, autocomplete=True):
+    """the node sets (sorted inputs) of the steps of three or more nodes, in the order `from_path` meets
+    them, plus the final completion"""
+    live = [[i] for i in range(n)]
+    keys = []
+    for p in path:
+        picked = [live.pop(i) for i in sorted(p, reverse=True)]
+        if len(picked) >= 3:
+            keys.append((sorted(x for g in picked for x in g), len(picked)))
+        live.append(sorted(x for g in picked for x in g))
+    if autocomplete and len(live) >= 3:
+        keys.append((sorted(x for g in live for x in g), len(live)))
+    return keys
+
+
+def check_kary(ctx, drv, rng):
+    """`from_path` with steps of any arity and an explicit inner finder: the real tree against
+    `fromLinearK` (Model/ContractNodes) given the same inner answers -- exact, orientation-free"""
+    net = gen.rand_net(rng, nmin=3, nmax=9) if rng.random() < 0.6 else medium_net(rng, 6, 11)
+    n = len(net.inputs)
+    inputs, output, sd = args_of(net)
+    path = rand_linear_path(rng, n, arity_max=rng.choice([3, 4, 6]), singles=rng.random() < 0.3,
+                            stop_early=rng.choice([0, 0, 1, 2, 3, 4]))
+    if n - sum(len(st) - 1 for st in path) < 1:
+        return
+    keys = kary_keys(n, path)
+    answers = [rand_linear_path(rng, k) for _, k in keys]
+    finder = InnerFinder(answers=[list(a) for a in answers])
+    ctx.count("kary:steps>=3", sum(1 for st in path if len(st) >= 3))
+    ctx.count("kary:final_completion>=3", int(n - sum(len(st) - 1 for st in path) >= 3))
+    tree = run_finder(ctx, drv, net, "kary", "from_path(kary)", "tree", "inner-finder",
+                      lambda: ccore.ContractionTree.from_path(inputs, output, sd, path=path, optimize=finder,
+                                                              autocomplete=True),
+                      {"path": path, "inner": answers}, case_extra={"explicit": "kary"})
+    if tree is None:
+        return
+    if [k for k, _ in finder.log] != [k for _, k in keys] or finder.answers:
+        ctx.corr_broken("from_path: the inner finder is not called once per step of >= 3 nodes (+ completion)",
+                        {"net": net.json(), "path": path, "log": finder.log, "keys": keys})
+        return
+    inner = [[key, pth] for (key, _), (_, pth) in zip(keys, finder.log)]
+    r = drv.call("c05.from_path_kary", n=n, path=path, inner=inner, autocomplete=True)
+    ctx.traces += 1
+    real = tree["nested"]
+    same = r.get("result") == "ok" and len(r.get("trees", [])) == 1 and \
+        canon_tree(r["trees"][0])[0] == canon_tree(real)[0]
+    if not same:
+        ctx.corr_broken("from_path with k-ary steps: model tree differs from the real tree",
+                        {"net": net.json(), "path": path, "inner": inner, "model": r, "real": real})
+    else:
+        ctx.count("kary:tree_equal")
+
+
+class _RecRng:
+    def __init__(self, rng):
+        self.rng, self.log = rng, []
+
+    def randint(self, a, b):
+        v = self.rng.randint(a, b)
+        self.log.append([int(a), int(b), int(v)])
+        return v
+
+    def __getattr__(self, name):
+        return getattr(self.rng, name)
+
+
+def check_random_optimizer(ctx, drv, rng):
+    """`RandomOptimizer.__call__` against `randomPath` for the PRNG draws it actually made"""
+    from cotengra.pathfinders.path_random import RandomOptimizer
+    net = gen.rand_net(rng, nmin=1, nmax=9)
+    n = len(net.inputs)
+    opt = RandomOptimizer(seed=rng.randrange(1 << 30))
+    rec = _RecRng(opt.rng)
+    opt.rng = rec
+    st, path = guarded(lambda: [[int(x) for x in s_] for s_ in opt(*args_of(net))])
+    ctx.count("random_optimizer")
+    if st != "ok":
+        return          # judged by the catalogue entry of the same finder
+    # the accepted pairs, and whether every range asked of the PRNG is the model's: positions 0..Nrem
+    draws, ranges_ok, k, step = [], True, 0, 0
+    while k < len(rec.log):
+        nrem = n - 1 - step
+        a, b, i = rec.log[k]
+        k += 1
+        ranges_ok = ranges_ok and (a == 0 and b == nrem)
+        j = i
+        while j == i and k < len(rec.log):
+            a, b, j = rec.log[k]
+            k += 1
+            ranges_ok = ranges_ok and (a == 0 and b == nrem)
+        draws.append([i, j])
+        step += 1
+    r = drv.call("c05.random_path", n=n, draws=draws)
+    ctx.traces += 1
+    if r.get("path") != path or not r.get("draws_ok") or not ranges_ok:
+        ctx.corr_broken("RandomOptimizer: path / draws / ranges drawn from differ from Model randomPath / drawsOK",
+                        {"n": n, "draws": draws, "real": path, "model": r, "ranges": rec.log[:6]})
+
+
+def check_ssa_to_linear(ctx, drv, rng):
+    """`ssa_to_linear` against the model on valid ssa paths (any arity) and on paths that are not paths of
+    the `N` given (stale ids, ids twice): same answer or `IndexError` on both sides"""
+    n = rng.randint(1, 9)
+    lin = rand_linear_path(rng, n, arity_max=rng.choice([2, 2, 4]), singles=rng.random() < 0.2,
+                           stop_early=rng.choice([0, 0, 0, 1, 2]))
+    ssa = linear_to_ssa_own(n, lin)
+    kind = rng.choice(["valid", "valid", "other-n", "mangled"])
+    N = n
+    if kind == "other-n":
+        N = max(1, n + rng.choice([-2, -1, 1, 2]))
+    elif kind == "mangled" and ssa:
+        k = rng.randrange(len(ssa))
+        ssa[k] = [rng.randrange(0, 2 * n) for _ in ssa[k]]
+    ctx.count("ssa_to_linear:" + kind)
+
+    def real():
+        return [[int(x) for x in st] for st in pb.ssa_to_linear([tuple(st) for st in ssa], N)]
+    st, val = guarded(real)
+    r = drv.call("c05.ssa_to_linear", n=N, path=ssa)
+    ctx.traces += 1
+    real_res = ("ok", val) if st == "ok" else ("indexerror" if str(val).startswith("IndexError") else str(val), None)
+    model_res = (r.get("result"), r.get("path"))
+    if real_res != model_res:
+        ctx.corr_broken("ssa_to_linear differs from the model", {"N": N, "ssa": ssa, "real": [st, val], "model": r})
+        return
+    if kind == "valid" and st == "ok":
+        complete = valid_ssa(n, ssa)
+        if complete:
+            inferred = [[int(x) for x in s_] for s_ in pb.ssa_to_linear([tuple(s_) for s_ in ssa])]
+            if inferred != val:
+                ctx.corr_broken("ssa_to_linear(N=None) differs from ssa_to_linear(N) on a complete path",
+                                {"N": N, "ssa": ssa})
+        if valid_linear(n, val, partial=not complete) is False:
+            ctx.violation({"site": "ssa_to_linear", "label": "fn", "ntensors": str(n), "error": "invalid-path"},
+                          {"case": {"site": "ssa_to_linear", "n": n, "ssa": ssa}, "observed": val},
+                          "ssa_to_linear turns a valid ssa path into an invalid linear path")
+
+
+# ------------------------------------------------------------------------------ autocomplete / get_incomplete_nodes
+
+
+def build_partial(net, params):
+    """a partially built tree: top-down `splits` (node, left part) and bottom-up `pairs` of existing
+    disjoint nodes, as recorded in params"""
+    inputs, output, sd = args_of(net)
+    t = ccore.ContractionTree(inputs, output, sd)
+    for node, left in params["splits"]:
+        l = frozenset(left)
+        t.contract_nodes_pair(l, frozenset(node) - l)
+    for x, y in params["pairs"]:
+        t.contract_nodes_pair(frozenset(x), frozenset(y))
+    return t
+
+
+def gen_partial(rng, n):
+    splits, pairs = [], []
+    childless = [list(range(n))]
+    for _ in range(rng.randint(0, 3)):
+        big = [c for c in childless if len(c) >= 2]
+        if not big:
+            break
+        c = rng.choice(big)
+        k = rng.randint(1, len(c) - 1)
+        left = sorted(rng.sample(c, k))
+        right = sorted(set(c) - set(left))
+        splits.append([c, left])
+        childless.remove(c)
+        childless += [left, right]
+    # bottom-up pieces inside the childless nodes
+    for c in [c for c in childless if len(c) >= 3]:
+        avail = [[x] for x in c]
+        for _ in range(rng.randint(0, len(c) - 2)):
+            if len(avail) < 3:
+                break
+            x, y = rng.sample(avail, 2)
+            avail.remove(x)
+            avail.remove(y)
+            pairs.append([x, y])
+            avail.append(sorted(x + y))
+    return {"splits": splits, "pairs": pairs}
+
+
+def check_autocomplete(ctx, drv, rng):
+    """`get_incomplete_nodes` / `autocomplete` (core.py:412-472): (flat) after a partial `from_path` the
+    one group is the model's list of live subtrees and completing it gives the model's tree; (nested)
+    trees built partly top-down and partly bottom-up are completed -- certificate: `checkTree`"""
+    if rng.random() < 0.5:
+        net = gen.rand_net(rng, nmin=3, nmax=9)
+        n = len(net.inputs)
+        inputs, output, sd = args_of(net)
+        path = rand_linear_path(rng, n, arity_max=rng.choice([2, 3, 4]), stop_early=rng.randint(1, 4))
+        left = n - sum(len(st) - 1 for st in path)
+        if left < 1:
+            return
+        keys = kary_keys(n, path, autocomplete=False)
+        ans1 = [rand_linear_path(rng, k) for _, k in keys]
+        ans2 = [rand_linear_path(rng, left)] if left >= 3 else []
+        params = {"path": path, "inner": ans1, "final": ans2}
+        groups_seen = []
+
+        def thunk():
+            t = ccore.ContractionTree.from_path(inputs, output, sd, path=path, autocomplete=False,
+                                                optimize=InnerFinder(answers=[list(a) for a in ans1]))
+            g = t.get_incomplete_nodes()
+            groups_seen.append([[sorted(int(x) for x in k), [sorted(int(x) for x in nd) for nd in v]]
+                                for k, v in g.items()])
+            t.autocomplete(optimize=InnerFinder(answers=[list(a) for a in ans2]))
+            return t
+        ctx.count("autocomplete:flat")
+        tree = run_finder(ctx, drv, net, "autocomplete", "autocomplete(flat)", "tree", "partial-path", thunk, params)
+        if tree is None:
+            return
+        inner = [[key, pth] for (key, _), pth in zip(keys, ans1)]
+        r0 = drv.call("c05.from_path_kary", n=n, path=path, inner=inner, autocomplete=False)
+        ctx.traces += 1
+
+        def leafsets(ts):
+            def lv(t):
+                return [t] if isinstance(t, int) else lv(t[0]) + lv(t[1])
+            return [sorted(lv(t)) for t in ts]
+        want = leafsets(r0.get("trees", [])) if r0.get("result") == "ok" else None
+        got = groups_seen[-1] if groups_seen else None
+        exp_groups = [] if left == 1 else [[list(range(n)), want]]
+        if want is None or got is None or \
+                [[k, sorted(v)] for k, v in got] != [[k, sorted(v)] for k, v in exp_groups]:
+            ctx.corr_broken("get_incomplete_nodes after a partial from_path differs from the model's live subtrees",
+                            {"net": net.json(), "params": params, "real": got, "model": r0})
+            return
+        same_order = got == exp_groups
+        ctx.count("autocomplete:group_in_model_order" if same_order else "autocomplete:group_other_order")
+        if same_order:
+            inner2 = inner + ([[list(range(n)), ans2[0]]] if ans2 else [])
+            r1 = drv.call("c05.from_path_kary", n=n, path=path, inner=inner2, autocomplete=True)
+            ok = r1.get("result") == "ok" and len(r1.get("trees", [])) == 1 and \
+                canon_tree(r1["trees"][0])[0] == canon_tree(tree["nested"])[0]
+            if not ok:
+                ctx.corr_broken("autocomplete: completed tree differs from the model", 
+                                {"net": net.json(), "params": params, "real": tree["nested"], "model": r1})
+            else:
+                ctx.count("autocomplete:tree_equal")
+        return
+    net = gen.rand_net(rng, nmin=2, nmax=10) if rng.random() < 0.6 else medium_net(rng, 6, 12)
+    n = len(net.inputs)
+    params = gen_partial(rng, n)
+    params["optimize"] = rng.choice(["greedy", "auto", "auto-hq", "optimal" if n <= 8 else "greedy"])
+    ctx.count("autocomplete:nested")
+    ctx.count("autocomplete:nested_splits", len(params["splits"]))
+    ctx.count("autocomplete:nested_pairs", len(params["pairs"]))
+
+    def thunk2():
+        t = build_partial(net, params)
+        t.autocomplete(optimize=params["optimize"])
+        return t
+    run_finder(ctx, drv, net, "autocomplete", "autocomplete(nested)", "tree", "partial-tree", thunk2, params)
+
+
 # ------------------------------------------------------------------------------ hyper optimizer route
 
 
@@ -964,9 +1951,13 @@ def replay_corpus(ctx):
 
 
 def run(ctx, drv):
-    replay_corpus(ctx)
+    zygote(ctx, drv)            # before this process makes its first call into cotengra
+    _CALLED_INTO_COTENGRA[0] = True
     rng = ctx.rng
     quick = ctx.tier == "quick"
+    check_c16_agreement(ctx)
+    check_sessions(ctx, drv, rng, budget_s=(75 if quick else 600), rounds=(2 if quick else 12))
+    replay_corpus(ctx)
     for _ in range(600 if quick else 6000):
         check_separate(ctx, drv, rng)
     for _ in range(150 if quick else 1500):
@@ -992,10 +1983,26 @@ def run(ctx, drv):
         if ctx.time_left() < 20:
             break
         check_builders(ctx, drv, rng)
+    for _ in range(120 if quick else 1200):
+        if ctx.time_left() < 20:
+            break
+        check_labels_options(ctx, drv, rng)
     for _ in range(60 if quick else 600):
         if ctx.time_left() < 20:
             break
         check_sequence(ctx, drv, rng)
+    for _ in range(40 if quick else 400):
+        if ctx.time_left() < 20:
+            break
+        check_best_so_far(ctx, drv, rng)
+    for _ in range(300 if quick else 3000):
+        if ctx.time_left() < 20:
+            break
+        check_kary(ctx, drv, rng)
+        check_autocomplete(ctx, drv, rng)
+        check_random_optimizer(ctx, drv, rng)
+        check_ssa_to_linear(ctx, drv, rng)
+        check_ssa_to_linear(ctx, drv, rng)
 
 
 def _rebuild(case):
@@ -1004,15 +2011,21 @@ def _rebuild(case):
     inputs, output, sd = args_of(net)
     site, label, params = case["site"], case["label"], case.get("params", {})
     if site == "array_contract_path":
-        return net, "path", lambda: ctg.array_contract_path(inputs, output, sd, optimize=label, cache=False)
+        return net, "path", lambda: iface_call("path", net, label, params.get("iface") or {})
     if site == "array_contract_tree":
-        return net, "tree", lambda: ctg.array_contract_tree(inputs, output, sd, optimize=label)
+        return net, "tree", lambda: iface_call("tree", net, label, params.get("iface") or {})
+    if site in ("optimize_greedy", "optimize_optimal"):
+        fn = getattr(pb, site)
+        pr = {k: (tuple(v) if isinstance(v, list) else v) for k, v in params.items()}
+        return net, ("ssa" if params.get("use_ssa") else "path"), lambda: fn(inputs, output, sd, **pr)
     if site == "hyper_function":
         return net, "tree", lambda: chyper.base_trial_fn(inputs, output, sd, label, **dict(params))["tree"]
     if site == "HyperOptimizer.search":
         return net, "tree", lambda: ctg.HyperOptimizer(
             methods=[label], max_repeats=params.get("max_repeats", 1), optlib=params.get("optlib", "random"),
             parallel=False, progbar=False, on_trial_error="raise").search(inputs, output, sd)
+    if site.startswith("RandomGreedyOptimizer"):
+        params = {k: (tuple(v) if isinstance(v, list) else v) for k, v in params.items()}
     if site == "RandomGreedyOptimizer":
         return net, "path", lambda: pb.RandomGreedyOptimizer(parallel=False, **params)(inputs, output, sd)
     if site == "RandomGreedyOptimizer.search":
@@ -1025,6 +2038,23 @@ def _rebuild(case):
         return net, "path", lambda: pb.OptimalOptimizer(**params)(inputs, output, sd)
     if site == "RandomOptimizer":
         return net, "path", lambda: ctg.pathfinders.path_random.RandomOptimizer(**params)(inputs, output, sd)
+    if site == "autocomplete(flat)":
+        def thunk_flat():
+            t = ccore.ContractionTree.from_path(inputs, output, sd, path=params["path"], autocomplete=False,
+                                                optimize=InnerFinder(answers=[list(a) for a in params["inner"]]))
+            t.autocomplete(optimize=InnerFinder(answers=[list(a) for a in params["final"]]))
+            return t
+        return net, "tree", thunk_flat
+    if site == "autocomplete(nested)":
+        def thunk_nested():
+            t = build_partial(net, params)
+            t.autocomplete(optimize=params["optimize"])
+            return t
+        return net, "tree", thunk_nested
+    if site == "from_path(kary)":
+        finder = InnerFinder(answers=[list(a) for a in params["inner"]])
+        return net, "tree", lambda: ccore.ContractionTree.from_path(inputs, output, sd, path=params["path"],
+                                                                   optimize=finder, autocomplete=True)
     if site in ("from_path(linear)", "from_path(ssa)"):
         key = "ssa_path" if site.endswith("(ssa)") else "path"
         return net, "tree", lambda: ccore.ContractionTree.from_path(inputs, output, sd, autocomplete=True,
@@ -1036,6 +2066,8 @@ def _rebuild(case):
         return net, "path", lambda: ctg.array_contract_path(inputs, output, sd, optimize=p, cache=False)
     if site == "explicit-edge-path":
         ep = tuple(params["edge_path"])
+        if label == "path":
+            return net, "path", lambda: ctg.array_contract_path(inputs, output, sd, optimize=ep, cache=False)
         return net, "tree", lambda: ctg.array_contract_tree(inputs, output, sd, optimize=ep)
     if site == "sequence":
         route = case.get("route", label)
@@ -1052,6 +2084,10 @@ def _rebuild(case):
                     pass
             return (path_fn if case.get("kind", "path") == "path" else tree_fn)(net)
         return net, case.get("kind", "path"), thunk
+    if site.startswith("labels_to_tree."):
+        from cotengra.pathfinders import path_labels as pl
+        fn = pl.labels_to_tree.build_divide if site.endswith("divide") else pl.labels_to_tree.build_agglom
+        return net, "tree", lambda: fn(inputs, output, sd, seed=7, **params)
     if site.startswith("PartitionTreeBuilder."):
         style = params["partitioner"]
         import random as _r
@@ -1062,11 +2098,37 @@ def _rebuild(case):
             return {"one": [7] * nv, "identity": list(range(nv)), "two": [i % 2 for i in range(nv)]}.get(
                 style, [rng.randrange(max(1, parts)) for _ in range(nv)])
         b = ccore.PartitionTreeBuilder(fn)
+        extra = {k: params[k] for k in ("sub_optimize", "super_optimize", "parts_decay", "random_strength")
+                 if k in params}
+        extra["seed"] = params.get("seed", 1)
         if site.endswith("divide"):
             return net, "tree", lambda: b.build_divide(inputs, output, sd, cutoff=params["cutoff"],
-                                                       parts=params["parts"], seed=1)
-        return net, "tree", lambda: b.build_agglom(inputs, output, sd, groupsize=params["groupsize"])
+                                                       parts=params["parts"], **extra)
+        extra.pop("super_optimize", None)
+        extra.pop("parts_decay", None)
+        return net, "tree", lambda: b.build_agglom(inputs, output, sd, groupsize=params["groupsize"], **extra)
     raise KeyError(site)
+
+
+def replay_session(case):
+    """the calls of a session, in order, in a process image that has not called into cotengra yet
+    (a forked child of this fresh replay process, so that it can be repeated for unseeded finders);
+    the verdict is on the answer to the last call"""
+    calls = case["calls"]
+    limit = max(c.get("limit", 60) for c in calls)
+    names = " ".join(str(c.get("opt", {}).get("name", "")) + str(c.get("raw", {}).get("optimize", {}).get("preset", ""))
+                     for c in calls)
+    unseeded = any(w in names for w in ("random", "hyper", "auto"))
+    for _ in range(12 if unseeded else 2):
+        st, recs = forked(lambda: c05_sessions.run_inprocess(calls, limit), limit=limit * len(calls) + 30)
+        if st != "ok":
+            print("# replay:", st, recs)
+            return False
+        if not record_ok(calls[-1], recs[-1]):
+            print("# replay: call %d of the session: %s" % (len(calls) - 1,
+                  recs[-1].get("msg") or "returned contraction is not valid/complete"))
+            return False
+    return True
 
 
 def replay(ctx, obj):
@@ -1082,19 +2144,28 @@ def replay(ctx, obj):
         return True
     if "site" not in case:
         return True
+    if case["site"] == "session":
+        return replay_session(case)
     try:
         net, kind, thunk = _rebuild(case)
     except KeyError:
         print("# replay: unknown site", case.get("site"))
         return True
     n = len(net.inputs)
+    prime_dispatch(case.get("dispatch_first"))
 
     def produce():
         val = thunk()
+        if kind == "ssa":
+            return valid_ssa(n, [c05_sessions._jsonable_step(s_) for s_ in val])
         if kind == "path":
-            return valid_linear(n, [[int(x) for x in s_] for s_ in val])
+            return valid_linear(n, [c05_sessions._jsonable_step(s_) for s_ in val],
+                                partial=(case.get("kind") == "path-partial"))
         ch = dump_children(val)
-        return bool(tree_ok(n, ch) and valid_linear(n, [list(map(int, s_)) for s_ in val.get_path()]))
+        if not (tree_ok(n, ch) and valid_linear(n, [list(map(int, s_)) for s_ in val.get_path()])):
+            return False
+        o = ordered_paths(val, n)
+        return bool(valid_linear(n, o["lin_ord"]) and valid_ssa(n, o["ssa_ord"]))
     # finders drawing from an unseeded generator are tried repeatedly: one failure fails the property
     unseeded = case.get("label") == "random" or case.get("site") in ("HyperOptimizer.search", "hyper_function")
     for _ in range(25 if unseeded else 1):
